@@ -684,3 +684,133 @@ def _int_div_trait(it, st, args, ctx):
     a, b = deref(it, st, args[0]), deref(it, st, args[1])
     r = z3.UDiv(a, b) if ctx.callee.endswith('div') else z3.URem(a, b)
     return _panic_fork(it, st, b != 0, r, 'attempt to divide by zero', ctx)
+
+
+# ---------------------------------------------------------------------------
+# more of core::num (so that ordinary refactorings of integer code stay inside the encoding)
+
+
+def _range_fits(v, src_signed, src_bits, dst_signed, dst_bits):
+    """condition under which the mathematical value of v (src type) is representable in the dst type"""
+    conds = []
+    if src_signed and not dst_signed:
+        conds.append(v >= 0)
+    # upper bound
+    dst_max = (1 << (dst_bits - 1)) - 1 if dst_signed else (1 << dst_bits) - 1
+    src_max = (1 << (src_bits - 1)) - 1 if src_signed else (1 << src_bits) - 1
+    if dst_max < src_max:
+        conds.append((v <= bv(dst_max, src_bits)) if src_signed else z3.ULE(v, bv(dst_max, src_bits)))
+    if src_signed and dst_signed and dst_bits < src_bits:
+        conds.append(v >= bv(-(1 << (dst_bits - 1)), src_bits))
+    return z3.And(*conds) if conds else z3.BoolVal(True)
+
+
+@summary(r'^<(u8|u16|u32|u64|u128|usize|i8|i16|i32|i64|i128) as (std::convert::)?(TryFrom|TryInto)<(\w+)>>::(try_from|try_into)$')
+def _int_try_from(it, st, args, ctx):
+    m = re.match(r'^<(\w+) as (?:std::convert::)?(TryFrom|TryInto)<(\w+)>>', ctx.callee)
+    a, kind, b = m.groups()
+    src, dst = (b, a) if kind == 'TryFrom' else (a, b)
+    si, di = int_info(src), int_info(dst)
+    if not si or not di:
+        return NotImplemented
+    v = args[0]
+    ok = simp(_range_fits(v, si[1], si[0], di[1], di[0]))
+    val = int_cast(v, si[1], di[0])
+    if z3.is_true(ok):
+        return mk_ok(val)
+    return EnumV('Result', z3.If(ok, bv(0, 8), bv(1, 8)), {'Ok': (val,), 'Err': (Opaque('TryFromIntError'),)})
+
+
+@summary(_int_method('abs'))
+def _abs(it, st, args, ctx):
+    a = args[0]
+    bits = a.size()
+    mn = bv(1 << (bits - 1), bits)
+    # `-self` inside abs inherits the caller's overflow checks (#[rustc_inherit_overflow_checks]); the MIR under check is
+    # built with overflow checks on
+    return _panic_fork(it, st, a != mn, z3.If(a < 0, -a, a), 'attempt to negate with overflow', ctx)
+
+
+@summary(_int_method('wrapping_abs'))
+def _wrapping_abs(it, st, args, ctx):
+    a = args[0]
+    return z3.If(a < 0, -a, a)
+
+
+@summary(_int_method('checked_abs'))
+def _checked_abs(it, st, args, ctx):
+    a = args[0]
+    bits = a.size()
+    return mk_option(a != bv(1 << (bits - 1), bits), z3.If(a < 0, -a, a))
+
+
+@summary(_int_method('abs_diff'))
+def _abs_diff(it, st, args, ctx):
+    a, b = args
+    bits, signed = int_info(self_int_type(ctx))
+    lt = (a < b) if signed else z3.ULT(a, b)
+    return z3.If(lt, b - a, a - b)
+
+
+@summary(_int_method('(is_negative|is_positive|signum)'))
+def _sign_tests(it, st, args, ctx):
+    a = args[0]
+    if ctx.callee.endswith('is_negative'):
+        return a < 0
+    if ctx.callee.endswith('is_positive'):
+        return a > 0
+    bits = a.size()
+    return z3.If(a < 0, bv(-1, bits), z3.If(a == 0, bv(0, bits), bv(1, bits)))
+
+
+@summary(_int_method('wrapping_neg'))
+def _wrapping_neg(it, st, args, ctx):
+    return -args[0]
+
+
+@summary(_int_method('checked_(div|rem)'))
+def _checked_divrem(it, st, args, ctx):
+    a, b = args
+    bits, signed = int_info(self_int_type(ctx))
+    if signed:
+        raise Unsupported('signed checked_div')
+    r = z3.UDiv(a, b) if ctx.callee.endswith('div') else z3.URem(a, b)
+    return mk_option(b != 0, r)
+
+
+@summary(_int_method('overflowing_(sub|mul)'))
+def _ovf_submul(it, st, args, ctx):
+    a, b = args
+    bits, signed = int_info(self_int_type(ctx))
+    if signed:
+        raise Unsupported('signed overflowing op')
+    if ctx.callee.endswith('sub'):
+        return Agg('tuple', [a - b, z3.ULT(a, b)])
+    return Agg('tuple', [a * b, z3.Not(z3.BVMulNoOverflow(a, b, False))])
+
+
+@summary(_int_method('(count_ones|trailing_zeros|is_power_of_two)'))
+def _bit_counts(it, st, args, ctx):
+    a = args[0]
+    bits = a.size()
+    if ctx.callee.endswith('count_ones'):
+        r = bv(0, 32)
+        for i in range(bits):
+            r = r + z3.ZeroExt(31, z3.Extract(i, i, a))
+        return r
+    if ctx.callee.endswith('trailing_zeros'):
+        r = bv(bits, 32)
+        for i in reversed(range(bits)):
+            r = z3.If(z3.Extract(i, i, a) == 1, bv(i, 32), r)
+        return r
+    return z3.And(a != 0, (a & (a - 1)) == 0)
+
+
+@summary(_int_method('clamp') + r'|^<\w+ as Ord>::clamp$')
+def _clamp(it, st, args, ctx):
+    a, lo, hi = args
+    info = int_info(self_int_type(ctx))
+    if info is None:
+        return NotImplemented
+    lt = (lambda x, y: x < y) if info[1] else z3.ULT
+    return _panic_fork(it, st, z3.Not(lt(hi, lo)), z3.If(lt(a, lo), lo, z3.If(lt(hi, a), hi, a)), 'assertion failed: min <= max', ctx)
